@@ -6,6 +6,7 @@ import Mimium.Proofs.OccursSeq
 import Mimium.Proofs.TypeRecDetect
 import Mimium.Gen.TypingFacts
 import Mimium.Gen.ParentWriters
+import Mimium.Proofs.LowerFront
 /-!
 # C04 — front end and compile entry points are total on arbitrary text
 
@@ -72,11 +73,17 @@ PROVED here (all inputs, no bounds; axioms ⊆ {propext, Classical.choice, Quot.
   aliases would make `resolve_type_alias` total when names are looked up as written).
   These two models are hand ports tied to the code only by their witnesses (replayed by every check run: `corpus/C04/seeds.txt`).
 
+* LOWERING (`Model/Lower.lean`, port of `lower.rs` tied by the exact AST + span correspondence of C16): `C04_lower_total` — the port
+  is ONE structural recursion over the green tree (`attr`: every attribute function of `lower.rs` is evaluated once per node:
+  `(attr t).size = t.size`), so it is total by construction and needs no fuel; `C04_front_end_total` — text → tokens → CST → AST
+  returns for every text with the parser's fuel bound (`oof = false`); `C04_lower_spans_in_range` — every span the lowering can
+  attach (a term over the token leaves) evaluates to offsets inside the text, both ends on token (hence character) boundaries.
+
 NOT proved (decided by the correspondence run of `tools/props/c04.py`): that the request sequences of `Model/OccursSeq.lean`
 are all the type checker does to the store beyond the pinned inventory of `parent` writers (the structural arms of
 `unify_types` are read off the source, not modelled); that the Rust grammar functions terminate as a whole
 (mutual recursion between the grammar functions is not modelled; each loop is proved to terminate GIVEN that the calls in its
-body return), absence of panics, lowering, type inference, MIR generation and both back ends.  Those are exercised under
+body return), absence of panics (the Rust `lower.rs` indexes only behind `get`/`len` checks; its panics are exercised, not modelled), type inference, MIR generation and both back ends.  Those are exercised under
 `catch_unwind` + wall clock + bounded stack in child processes on exhaustive token sequences and mutated corpus texts.
 -/
 namespace Mimium.Props.C04
@@ -620,5 +627,57 @@ example :
 /-- non-vacuity: an out-of-range `token_index` falls back to the `Eof` token at `(len, len)` -/
 example : errorSpan (tokenize ⟨fun c => c == 'a', fun c => c == 'a'⟩ Mimium.Lexer.genTables "(é".toList) 7 = (3, 3) := by
   decide +kernel
+
+/-! ## Lowering (`Model/Lower.lean`) -/
+
+open Mimium.Lower in
+/-- TOTALITY OF THE LOWERING.  The port of `lower.rs` is a single structural recursion over the (resolved) green tree — no fuel:
+`attr` of a leaf / of a node is `mkA` (all attribute functions: `node_span`, `walk_tokens`, `lower_expr`, `lower_statement`,
+`lower_pattern`, `lower_type`, `lower_match_pattern`, …, each a non-recursive function of the children's attributes) applied to the
+attributed children, and it evaluates `mkA` exactly once per node of the tree: the work is linear in the tree size. -/
+theorem C04_lower_total :
+    (∀ l : Leaf, attr (.leaf l) = mkA none (some l) []) ∧
+    (∀ (k : Nat) (cs : List T), attr (.node k cs) = mkA (some ((Mimium.Gen.SK.ofNat? k).getD .Error)) none (cs.map attr)) ∧
+    (∀ t : T, (attr t).size = t.size) :=
+  ⟨fun _ => by simp [attr], fun k cs => by simp [attr, attrL_eq_map], attr_size⟩
+
+open Mimium.Lower in
+/-- THE WHOLE FRONT END RETURNS on every text: `tokenize` (fuel = length), `preparse`, the ported `Parser::parse` with the fuel
+`fuelBound` (complete: `oof = false`, `C04_parser_terminates`) and the structurally recursive lowering. -/
+theorem C04_front_end_total (C : Classes) (T : Tables) (s : List Char) :
+    (frontEnd C T s).parse = Grammar.parseTokens ((tokenize C T s).map Token.kind) ((tokenize C T s).map Token.len) ∧
+    (frontEnd C T s).parse.oof = false := by
+  have h : (frontEnd C T s).parse = Grammar.parseTokens ((tokenize C T s).map Token.kind) ((tokenize C T s).map Token.len) := by
+    simp only [frontEnd]; split <;> rfl
+  exact ⟨h, by rw [h]; exact C04_parser_terminates _ _ _ (Nat.le_refl _)⟩
+
+open Mimium.Lower in
+/-- SPANS OF THE AST ARE INSIDE THE TEXT.  Every span `lower.rs` attaches is a term `sp : Sp` over the token leaves (`0..0`, the span
+of a leaf, `merge_spans`, `a.start..b.end`); for every such term, every text and every assignment `leaves` of raw token indices to
+the leaves (in or out of range), its byte offsets `sp.eval (leafOffsets tokens leaves)` — what `drv_c16` prints and the
+correspondence compares with the real spans — are `≤ len` and character boundaries of the text (each end is `0` or an end of a
+token).  Feeds the same facts as `C04_error_spans_inside` for diagnostics that carry AST spans. -/
+theorem C04_lower_spans_in_range (C : Classes) (T : Tables) (ok : TablesOk T = true) (s : List Char) (leaves : Array Nat) (sp : Sp) :
+    (sp.eval (leafOffsets (tokenize C T s).toArray leaves)).1 ≤ utf8Len s ∧
+    (sp.eval (leafOffsets (tokenize C T s).toArray leaves)).2 ≤ utf8Len s ∧
+    IsBoundary s (sp.eval (leafOffsets (tokenize C T s).toArray leaves)).1 ∧
+    IsBoundary s (sp.eval (leafOffsets (tokenize C T s).toArray leaves)).2 := by
+  have key : ∀ t ∈ tokenize C T s, t.start ≤ t.stop ∧ t.stop ≤ utf8Len s ∧ IsBoundary s t.start ∧ IsBoundary s t.stop :=
+    (C04_tokenizer_total C T ok s).2.2
+  have h0 : (fun n => n ≤ utf8Len s ∧ IsBoundary s n) 0 := ⟨Nat.zero_le _, ⟨[], List.nil_prefix, rfl⟩⟩
+  have hl : ∀ j, (fun n => n ≤ utf8Len s ∧ IsBoundary s n) (leafOffsets (tokenize C T s).toArray leaves j).1 ∧
+      (fun n => n ≤ utf8Len s ∧ IsBoundary s n) (leafOffsets (tokenize C T s).toArray leaves j).2 := by
+    intro j
+    unfold leafOffsets
+    split
+    · split
+      · rename_i t ht
+        have hm : t ∈ tokenize C T s := List.mem_of_getElem? (by simpa using ht)
+        obtain ⟨k1, k2, k3, k4⟩ := key t hm
+        exact ⟨⟨Nat.le_trans k1 k2, k3⟩, ⟨k2, k4⟩⟩
+      · exact ⟨h0, h0⟩
+    · exact ⟨h0, h0⟩
+  obtain ⟨⟨a1, a2⟩, ⟨b1, b2⟩⟩ := Sp.eval_closed (fun n => n ≤ utf8Len s ∧ IsBoundary s n) _ h0 hl sp
+  exact ⟨a1, b1, a2, b2⟩
 
 end Mimium.Props.C04
